@@ -50,6 +50,12 @@ CLAIMED = {
         note="Trusted base: game data (supply_area_distance, maximum_wire_distance, energy_source), world model for the behaviour twin.",
         ref="DESIGN.md §8 C18",
     ),
+    "C19": dict(
+        engine="factosim-exec",
+        text="Seeded stateful exploration: histories of 2-8 operations (compile one of several programs under options and a solver/routing fault plan, chdir, recompile) run inside one process per run, in interpreters started with different PYTHONHASHSEED values; after every compile the outcome class and the canonical logical circuit (positions, relay poles, numbering erased; WL colour-refinement hash of entity configurations + connector partition) are compared with a fresh-process, hash-seed-0, default-mode compile of the same source on the same tree. Reduced determinism self-test of the simulator itself is part of the quick tier.",
+        note="Trusted base: canonicalisation (isomorphic circuits always hash equal; collisions can only hide a difference). No golden files - the reference is recomputed from the current tree.",
+        ref="DESIGN.md §8 C19",
+    ),
 }
 
 NOT_YET = {}
